@@ -314,3 +314,27 @@ package kafka
 //@   loop 0 invariant forall k :: 0 <= k && k <= rangeindex ==> 0 <= int64(msgs[k].totalSize()) && int64(msgs[k].totalSize()) <= batchBytes
 //@   loop 0 after forall k :: 0 <= k && k < len(msgs) ==> 0 <= int64(msgs[k].totalSize()) && int64(msgs[k].totalSize()) <= w.batchBytes()
 //@   loop 1 invariant forall k :: 0 <= k && k < len(msgs) ==> 0 <= int64(msgs[k].totalSize()) && int64(msgs[k].totalSize()) <= w.batchBytes()
+
+//@ property C15
+
+//@ type Generation
+//@   closeonly done, joined
+
+// accounting of the functions started in a generation (the monitor invariant of g.lock):
+//   done is closed exactly when closed is set; routines counts the started functions that have not returned;
+//   joined is closed only after the generation was closed and the last function returned.
+//@ lock (*Generation).lock as g
+//@   guards closed, routines, done->$closed, joined->$closed
+//@   invariant g.done != g.joined && g.closed == g.done.$closed && g.routines >= 0 && (g.joined.$closed ==> g.closed && g.routines == 0)
+
+// close returns only after every started function has returned: either it saw routines == 0 inside the critical
+// section (and the generation is closed, so Start no longer counts new functions), or it waited for joined.
+//@ func (*Generation).close
+//@   option noframe
+//@   modifies region(Generation.closed), region($closed)
+//@   ensures r == 0 || g.joined.$closed
+
+//@ func (*Generation).Start$1
+//@   lockassume g.routines >= 1 && !g.joined.$closed
+//@   option noframe
+//@   modifies region(Generation.closed), region(Generation.routines), region($closed)
